@@ -611,9 +611,11 @@ func c19r3(c *core.Ctx) {
 			case *ast.AssignStmt:
 				for i, l := range x.Lhs {
 					if ix, ok := ast.Unparen(l).(*ast.IndexExpr); ok && fieldKeyOf(m, ix.X) == "observerManager.observers" && i < len(x.Rhs) {
-						if call, ok := ast.Unparen(x.Rhs[i]).(*ast.CallExpr); ok && m.IsBuiltin(call, "append") {
+						// (list methods that merely name append(l, o) or l[:0] are read as those)
+						rhs := ast.Unparen(m.Inline(x.Rhs[i]))
+						if appendOf(m, rhs) != nil {
 							appendNode = x
-						} else if _, isSlice := ast.Unparen(x.Rhs[i]).(*ast.SliceExpr); !isSlice {
+						} else if _, isSlice := rhs.(*ast.SliceExpr); !isSlice {
 							removeNode = x
 						}
 					}
